@@ -2,6 +2,7 @@
 # seed_all.sh: re-run, for every seeded change, the quick checks recorded as catching it (scratch
 # worktree /root/mutwt, never /repo) and report any that no longer does.
 cd /verif
+export VERIF_BUDGET_S=${VERIF_BUDGET_S:-900}   # a loaded machine must not turn into "missed"
 for d in seeded/*/; do
   name=$(basename $d)
   checks=$(python3 -c "import json;print(' '.join(json.load(open('$d/meta.json'))['caught_by']))")
